@@ -37,6 +37,8 @@ WITNESSES = [
     "0.5::a. 0.5::b. r :- p, b. r :- q. q :- r. p :- a. p :- \\+q. query(p).",      # same, other clause order
     "0.5::a. 0.5::b. p :- \\+q. p :- a. q :- r. r :- q. r :- p, b. query(q).",      # entered from inside the sub-cycle
     "0.5::a. 0.5::b. 0.5::c. p :- c, \\+q. p :- a. q :- r. r :- s. s :- q. s :- p, b. query(p).",
+    "0.5::a. p :- a. p :- \\+q. q :- r. r :- q. r :- p. query(p).",                 # clean tree ANSWERS p: 1.0 (known finding)
+    "0.6::b. p :- \\+q. r :- b. r :- q. q :- r. q :- p. query(q).",                 # clean tree ANSWERS q: 0.6 (known finding)
     "d1 :- d1. d1 :- \\+d2. d2 :- d2. query(d1).",                      # stratified; pinned tree raises NegativeCycle
     "d0 :- f3, f1. d0 :- d1, f0. d1 :- d0, \\+d0. 0.5::f0. 0.5::f1. 0.4::f3. query(d0).",  # DESIGN §7 observation: either
 ]
@@ -97,7 +99,9 @@ def run(ctx):
                 ctx.violation("implementation answered %r although some total choice leaves a goal-relevant atom undefined "
                               "(well-founded model not two-valued): %s" % (cc.impl_default(small.text())[1], small.text().replace("\n", " ")),
                               {"program": small.to_json(), "class": "must_reject", "implementation": cc.impl_default(small.text()),
-                               "original_program": p.text()}, klass="answered-although-must-reject")
+                               "original_program": p.text()},
+                              klass=("negative-loop-closed-inside-positive-subcycle-answered"
+                                     if cc.feat_negloop_closed_inside_positive_subcycle(small) else "answered-although-must-reject"))
             elif im[1] not in REJECT:
                 ctx.count("must_reject-not-a-grounding-error:%s" % im[1])
         elif c == "must_answer":
